@@ -523,7 +523,6 @@ func (in *refInst) Apply(op int, check bool, report func(site, shape, detail str
 	return true
 }
 
-
 func opKind(name string) string {
 	if i := strings.IndexByte(name, '('); i > 0 {
 		return name[:i]
